@@ -254,6 +254,8 @@ for _tok, _op in (("EQ", "=="), ("NE", "!="), ("LT", "<"), ("LE", "<="), ("GT", 
 LEX.update({"LE": "<=", "GT": ">", "GE": ">="})
 EXTRA_TREE_SHAPES.append(("not-paren-and", ["NOT", "LPAREN"] + Q + ["AND"] + Q2 + ["RPAREN"], ("not", ("&&", qn("a"), qn("b")))))
 EXTRA_TREE_SHAPES.append(("not-paren-or", ["NOT", "LPAREN"] + Q + ["OR"] + Q2 + ["RPAREN"], ("not", ("||", qn("a"), qn("b")))))
+EXTRA_TREE_SHAPES.append(("string-literal-with-blanks", Q + ["EQ", ("SINGLE_QUOTE_STRING", " x ")], ("cmp", "==", qn("a"), ("lit", " x "))))
+EXTRA_TREE_SHAPES.append(("string-literal-double-quoted", [("DOUBLE_QUOTE_STRING", "A b")] + ["NE"] + Q, ("cmp", "!=", ("lit", "A b"), qn("a"))))
 EXTRA_TREE_SHAPES.append(("root-query-test", ["ROOT", ("PROPERTY", "a")], ("q", "root", "a")))
 EXTRA_TREE_SHAPES.append(("and-and", Q + ["AND"] + Q2 + ["AND"] + Q3, ("&&", ("&&", qn("a"), qn("b")), qn("c"))))
 EXTRA_TREE_SHAPES.append(("or-or", Q + ["OR"] + Q2 + ["OR"] + Q3, ("||", ("||", qn("a"), qn("b")), qn("c"))))
@@ -350,3 +352,117 @@ def _assoc_normal(t: Any) -> Any:
     if isinstance(t, list):
         return [_assoc_normal(x) for x in t]
     return t
+
+
+# ------------------------------------------------------------ query trees built by the parser
+QUERY_TREES: List[Tuple[str, List[Any], Any]] = [
+    ("root", ["ROOT"], []),
+    ("shorthand-name", ["ROOT", ("PROPERTY", "Ab_1")], [("child", [("name", "Ab_1")])]),
+    ("shorthand-wild", ["ROOT", "WILD"], [("child", [("wild",)])]),
+    ("descendant-name", ["ROOT", "DOUBLE_DOT", ("PROPERTY", "a")], [("descendant", [("name", "a")])]),
+    ("descendant-wild", ["ROOT", "DOUBLE_DOT", "WILD"], [("descendant", [("wild",)])]),
+    ("descendant-bracket", ["ROOT", "DOUBLE_DOT", "LBRACKET", ("INDEX", "1"), "RBRACKET"], [("descendant", [("index", 1)])]),
+    ("bracket-name-single", ["ROOT", "LBRACKET", ("SINGLE_QUOTE_STRING", " x y "), "RBRACKET"], [("child", [("name", " x y ")])]),
+    ("bracket-name-double", ["ROOT", "LBRACKET", ("DOUBLE_QUOTE_STRING", "X"), "RBRACKET"], [("child", [("name", "X")])]),
+    ("bracket-index-negative", ["ROOT", "LBRACKET", ("INDEX", "-2"), "RBRACKET"], [("child", [("index", -2)])]),
+    ("bracket-index-zero", ["ROOT", "LBRACKET", ("INDEX", "0"), "RBRACKET"], [("child", [("index", 0)])]),
+    ("bracket-wild", ["ROOT", "LBRACKET", "WILD", "RBRACKET"], [("child", [("wild",)])]),
+    ("bracket-slice", ["ROOT", "LBRACKET", ("INDEX", "1"), "COLON", ("INDEX", "-2"), "COLON", ("INDEX", "3"), "RBRACKET"], [("child", [("slice", 1, -2, 3)])]),
+    ("bracket-slice-open", ["ROOT", "LBRACKET", "COLON", "COLON", ("INDEX", "-1"), "RBRACKET"], [("child", [("slice", None, None, -1)])]),
+    (
+        "bracket-mixed-order",
+        ["ROOT", "LBRACKET", ("SINGLE_QUOTE_STRING", "x"), "COMMA", ("INDEX", "2"), "COMMA", "WILD", "COMMA", ("INDEX", "1"), "COLON", ("INDEX", "2"), "COMMA", "FILTER"] + Q + ["COMMA", ("INDEX", "0"), "RBRACKET"],
+        [("child", [("name", "x"), ("index", 2), ("wild",), ("slice", 1, 2, None), ("filter", ("q", "relative", "a")), ("index", 0)])],
+    ),
+    (
+        "three-segments",
+        ["ROOT", ("PROPERTY", "a"), ("PROPERTY", "b"), "LBRACKET", ("INDEX", "0"), "RBRACKET", "DOUBLE_DOT", ("PROPERTY", "c"), "WILD"],
+        [("child", [("name", "a")]), ("child", [("name", "b")]), ("child", [("index", 0)]), ("descendant", [("name", "c")]), ("child", [("wild",)])],
+    ),
+    ("same-name-twice", ["ROOT", "LBRACKET", ("SINGLE_QUOTE_STRING", "a"), "COMMA", ("SINGLE_QUOTE_STRING", "a"), "RBRACKET"], [("child", [("name", "a"), ("name", "a")])]),
+]
+
+
+def selector_shape(x: Any) -> Any:
+    if not isinstance(x, Inst):
+        return ("?", repr(x))
+    n = x.cls.name
+
+    def val(a: Any) -> Any:
+        if isinstance(a, Const):
+            return a.value
+        if isinstance(a, IntV) and a.lin.is_const():
+            return a.lin.const
+        return repr(a)
+
+    if n == "NameSelector":
+        return ("name", val(x.attrs.get("name")))
+    if n == "IndexSelector":
+        return ("index", val(x.attrs.get("index")))
+    if n == "WildcardSelector":
+        return ("wild",)
+    if n == "SliceSelector":
+        sl = x.attrs.get("slice")
+        if isinstance(sl, SliceV):
+            return ("slice", val(sl.start), val(sl.stop), val(sl.step))
+        return ("slice", "?")
+    if n == "FilterSelector":
+        return ("filter", _assoc_normal(expr_shape(x.attrs.get("expression"))))
+    return ("?", n)
+
+
+def segments_shape(segs: Any, interp: Any) -> Any:
+    try:
+        items = interp.concrete_items(segs, None)
+    except Exception:  # noqa: BLE001
+        return ("?", repr(segs))
+    out = []
+    for sg in items:
+        if not isinstance(sg, Inst):
+            out.append(("?", repr(sg)))
+            continue
+        kind = {"JSONPathChildSegment": "child", "JSONPathRecursiveDescentSegment": "descendant"}.get(sg.cls.name, sg.cls.name)
+        sels = sg.attrs.get("selectors")
+        try:
+            sl = interp.concrete_items(sels, None)
+        except Exception:  # noqa: BLE001
+            sl = []
+        out.append((kind, [selector_shape(x) for x in sl]))
+    return out
+
+
+def check_query_trees(model: Model, report: Report, rule: str) -> None:
+    """Tokens of a whole query -> exactly the segments and selectors the grammar describes, in order."""
+    site_q = "parse.Parser.parse"
+    fi = model.functions.get(site_q)
+    pci = model.cls("parse.Parser")
+    for sid, spec, want in QUERY_TREES:
+
+        def body(it: Interp, spec=spec) -> Any:
+            env = real_env(it, model)
+            parser = env.attrs["parser"]
+            q = it.new_str("query")
+            toks = build_tokens(it, model, spec + ["EOF"], q)
+            st = make_stream(it, model, toks)
+            r = it.call_function(pci.find_method("parse"), [parser, st], {}, None, self_av=parser)
+            r = it.host.materialize(r, None)
+            return segments_shape(r, it)
+
+        key = f"query-tree:{sid}"
+        try:
+            runs = paths(model, body, limit=3000)
+        except Unsupported as err:
+            report.undecided(rule, site_q, f"{key}: {err}")
+            continue
+        bad = None
+        for run in runs:
+            if run.kind == "raise":
+                bad = f"is refused with {run.exc_name()}"
+                continue
+            if run.value != want:
+                bad = f"is parsed into {run.value!r}, expected {want!r}"
+        if bad:
+            report.fail(rule, site_q, key, f"query shape '{sid}' {bad}", file=fi.file if fi else "", line=fi.line if fi else 0)
+        else:
+            report.ok(rule, site_q, key)
+    report.touched("parse.Parser.parse", "parse.Parser.parse_query", "parse.Parser.parse_selectors", "parse.Parser.parse_bracketed_selection")
